@@ -1,10 +1,11 @@
 ---- MODULE MC_OalTypeTrace ----
 EXTENDS OalTypeTrace
-MC_AttrTypes == [A |-> [Id |-> "unique_id", N |-> "integer", S |-> "string", F |-> "boolean", Prev_Id |-> "same_as<Base_Attribute>", Calc |-> "integer"],
-                 B |-> [Id |-> "unique_id", N |-> "integer", A_Id |-> "same_as<Base_Attribute>"],
-                 L |-> [A_Id |-> "same_as<Base_Attribute>", B_Id |-> "same_as<Base_Attribute>", W |-> "integer"],
+\* (a referential attribute has the type of the attribute it refers to)
+MC_AttrTypes == [A |-> [Id |-> "unique_id", N |-> "integer", S |-> "string", F |-> "boolean", Prev_Id |-> "unique_id", Calc |-> "integer"],
+                 B |-> [Id |-> "unique_id", N |-> "integer", A_Id |-> "unique_id"],
+                 L |-> [A_Id |-> "unique_id", B_Id |-> "unique_id", W |-> "integer"],
                  P |-> [Id |-> "unique_id", N |-> "integer"],
-                 M |-> [One_Id |-> "same_as<Base_Attribute>", Other_Id |-> "same_as<Base_Attribute>", W |-> "integer"]]
+                 M |-> [One_Id |-> "unique_id", Other_Id |-> "unique_id", W |-> "integer"]]
 MC_ParamTypes == [x |-> "integer", flag |-> "boolean", s |-> "string"]
 MC_RetTypes == ("fact" :> "integer" @@ "mix" :> "integer" @@ "A::cop" :> "integer" @@ "EE1::br" :> "integer" @@ "A.iop" :> "integer")
 MC_ConstTypes == ("LIMIT" :> "integer" @@ "GREETING" :> "string" @@ "ENABLED" :> "boolean")
